@@ -1,6 +1,7 @@
 package colvet
 
 import (
+	"go/constant"
 	"go/token"
 	"go/types"
 	"sort"
@@ -59,6 +60,7 @@ type env struct {
 	params map[*ssa.Parameter][]*closure // bound function-typed params; absent = unbound (user's)
 	free   map[*ssa.FreeVar]ssa.Value    // binding value in the creating function
 	parent *env                          // env of the creating function (for free) / unused for plain calls
+	consts map[*ssa.Parameter]*ssa.Const // parameters bound to a constant at this call (mode flags of shared helpers)
 	key    string
 	keyed  bool
 }
@@ -237,12 +239,55 @@ func (L *LFacts) envKey(e *env, depth int) string {
 		sort.Strings(names)
 		parts = append(parts, fv.Name()+"="+strings.Join(names, "|"))
 	}
+	for p, c := range e.consts {
+		parts = append(parts, p.Name()+"=="+c.String())
+	}
 	sort.Strings(parts)
 	k := strings.Join(parts, ";")
 	if depth == 0 {
 		e.key, e.keyed = k, true
 	}
 	return k
+}
+
+// constCond evaluates a branch condition that only depends on parameters bound to constants in
+// this context: p, !p, p == K, p != K (booleans and integers).
+func constCond(v ssa.Value, e *env, depth int) (val, known bool) {
+	if e == nil || len(e.consts) == 0 || depth > 3 {
+		return false, false
+	}
+	constOf := func(x ssa.Value) *ssa.Const {
+		switch t := x.(type) {
+		case *ssa.Const:
+			return t
+		case *ssa.Parameter:
+			return e.consts[t]
+		}
+		return nil
+	}
+	switch x := v.(type) {
+	case *ssa.Parameter:
+		if c := e.consts[x]; c != nil && c.Value != nil && c.Value.Kind() == constant.Bool {
+			return constant.BoolVal(c.Value), true
+		}
+	case *ssa.UnOp:
+		if x.Op == token.NOT {
+			b, ok := constCond(x.X, e, depth+1)
+			return !b, ok
+		}
+	case *ssa.BinOp:
+		if x.Op == token.EQL || x.Op == token.NEQ {
+			a, b := constOf(x.X), constOf(x.Y)
+			if a != nil && b != nil && a.Value != nil && b.Value != nil {
+				eq := constant.Compare(a.Value, token.EQL, b.Value)
+				if x.Op == token.NEQ {
+					eq = !eq
+				}
+				return eq, true
+			}
+		}
+	}
+	return false, false
 }
 
 func funcish(t types.Type) bool {
@@ -456,7 +501,13 @@ func (L *LFacts) walk(fn *ssa.Function, e *env, entry heldSet, parent *LCtx, dep
 		b := work[0]
 		work = work[1:]
 		out := transfer(b, in[b.Index], false)
-		for _, s := range b.Succs {
+		for i, s := range b.Succs {
+			// a branch on a parameter that is a constant in this context has one feasible edge
+			if iff, isIf := b.Instrs[len(b.Instrs)-1].(*ssa.If); isIf && len(b.Succs) == 2 {
+				if val, known := constCond(iff.Cond, e, 0); known && (val != (i == 0)) {
+					continue
+				}
+			}
 			n := meetHeld(in[s.Index], out)
 			if in[s.Index] == nil || n.key() != in[s.Index].key() {
 				in[s.Index] = n
@@ -557,6 +608,31 @@ func (L *LFacts) descend(ctx *LCtx, fn *ssa.Function, e *env, ins ssa.Instructio
 				continue // stays unbound: a client function all the way down
 			}
 			ne.params[t.fn.Params[pi]] = fa.cs
+		}
+		// constant (boolean, integer) arguments of library callees
+		if L.P.InLib(t.fn) {
+			for i, a := range cc.Args {
+				pi := i + off
+				if pi >= len(t.fn.Params) {
+					break
+				}
+				var c *ssa.Const
+				switch x := a.(type) {
+				case *ssa.Const:
+					c = x
+				case *ssa.Parameter:
+					if e != nil {
+						c = e.consts[x]
+					}
+				}
+				if c == nil || c.Value == nil || (c.Value.Kind() != constant.Bool && c.Value.Kind() != constant.Int) {
+					continue
+				}
+				if ne.consts == nil {
+					ne.consts = map[*ssa.Parameter]*ssa.Const{}
+				}
+				ne.consts[t.fn.Params[pi]] = c
+			}
 		}
 		before := map[*ssa.Function]int{}
 		for _, fa := range fargs {
